@@ -28,6 +28,17 @@ def kindName : Kind → String
   | .scalar => "Scalar" | .object => "Object" | .interface => "Interface"
   | .union => "Union" | .enum => "Enum" | .input => "InputObject"
 
+/-- `_diff_root_types`: the root operation types, compared by name -/
+def diffRootTypes (o n : SchemaD) : List Change :=
+  [("query", o.query, n.query), ("mutation", o.mutation, n.mutation), ("subscription", o.subscription, n.subscription)].flatMap
+    fun (op, ot, nt) =>
+      match ot, nt with
+      | none, none => []
+      | none, some b => [mk "RootTypeAdded" [("operation", op), ("type_name", b)]]
+      | some a, none => [mk "RootTypeRemoved" [("operation", op), ("type_name", a)]]
+      | some a, some b =>
+        if a != b then [mk "RootTypeChanged" [("new_type_name", b), ("old_type_name", a), ("operation", op)]] else []
+
 def findRemovedTypes (o n : SchemaD) : List Change :=
   (o.types.filter fun t => (n.findType t.name).isNone).map fun t => mk "TypeRemoved" [("type_name", t.name)]
 
@@ -157,7 +168,7 @@ def diffInputTypes (o n : SchemaD) : List Change :=
 
 /-- `diff_schema(old, new, min_severity)` -/
 def diffSchema (o n : SchemaD) (minSeverity : Nat := 0) : List Change :=
-  (findRemovedTypes o n ++ findAddedTypes o n ++ diffDirectives o n ++ findChangedTypes o n
+  (diffRootTypes o n ++ findRemovedTypes o n ++ findAddedTypes o n ++ diffDirectives o n ++ findChangedTypes o n
     ++ diffUnionTypes o n ++ diffEnumTypes o n ++ diffObjectTypes o n ++ diffInterfaceTypes o n
     ++ diffInputTypes o n).filter (fun c => c.severity ≥ minSeverity)
 
